@@ -8,13 +8,36 @@ tools/confirm_mutant.sh ("CONFIRM ...").
 import json, os, re, subprocess, sys
 
 root = '/verif/seeded'
+# seeded changes that the check of their own property cannot see but another property's check does
+OTHER = {'C05-7': {'check': './bin/vcheck run C09', 'signature': 'C09.race|packet.(*Session).makeOffline <-> packet.(*Session).onlineTransition',
+                   'why': 'the change is a lock released too early: it breaks the C05 invariant only under a concurrent purge; the C05 check is sequential, the concurrent pattern is C09\'s'}}
 res = {}
 for l in open(sys.argv[1]):
     m = re.match(r'MUTANT (\S+) exit=(\d*) sigs=(.*)', l.strip())
     if m:
         res[m.group(1)] = (m.group(2), [s for s in m.group(3).split(';') if s])
 
-wave = lambda n: 1 if int(n.split('-')[1]) <= 2 else 2
+WAVE3 = set("""C04-6 C04-7 C13-4 C13-5 C13-6 C14-6 C14-7 C14-8 C18-6 C18-7 C19-6 C19-7 C19-8 C19-9 C06-5 C06-6 C06-7 C06-8
+C11-6 C11-7 C11-8 C12-6 C12-7 C12-8 C05-5 C05-6 C05-7 C05-8 C07-6 C07-7 C07-8 C07-9 C09-5 C09-6 C09-7 C09-8 C10-5 C10-6 C10-7""".split())
+# wave-3 agents that, against their instructions, read files under /verif (titles of earlier seeded
+# changes; one read a scenario generator) before choosing their changes
+PEEKED = {'C07': 'read the titles of the earlier /verif/seeded/C07-* changes to avoid repeating them',
+          'C09': 'read the titles of the earlier /verif/seeded/C09-* changes to avoid repeating them',
+          'C10': 'read /verif/sim/scen/ndspoof.go and aimed change C10-7 at a gap it saw there (route-information prefix lengths)'}
+
+
+def wave(n):
+    if n in WAVE3:
+        return 3
+    return 1 if int(n.split('-')[1]) <= 2 else 2
+
+
+def origin(n):
+    s = 'sub-agent wave %d: given only the property text and a scratch worktree of /repo' % wave(n)
+    if wave(n) == 3 and n.split('-')[0] in PEEKED:
+        s += '; this agent ' + PEEKED[n.split('-')[0]]
+    return s
+
 
 
 def section(text, words):
@@ -41,17 +64,18 @@ for name in sorted(os.listdir(root)):
     prop = name.split('-')[0]
     readme = open(os.path.join(d, 'README.md')).read()
     title = readme.split('\n')[0].lstrip('# ').strip()
-    title = re.sub(r'^(C\d+ )?(mutant|Mutant|seeded change) \d+\s*[-:]\s*', '', title)
+    title = re.sub(r'^(C\d+ )?(mutant|Mutant|seeded change|change) \d+\s*[-:]\s*', '', title)
     files = re.findall(r'^\+\+\+ b/(\S+)', open(os.path.join(d, 'patch.diff')).read(), re.M)
     needs = section(readme, ['needed', 'manifest', 'trigger'])
     clause = section(readme, ['clause'])
     demo_pkg = re.search(r'^package (\w+)', open(os.path.join(d, 'zz_demo_test.go')).read(), re.M).group(1)
     code, sigs = res.get(name, ('', []))
+    other = OTHER.get(name)
     oracles = sorted(set(s.split('|')[0] for s in sigs))
     meta = {
         'id': name,
         'property': prop,
-        'origin': 'sub-agent wave %d: given only the property text and a scratch worktree of /repo' % wave(name),
+        'origin': origin(name),
         'change': title,
         'files': files,
         'clause_broken': clause[:900],
@@ -65,8 +89,13 @@ for name in sorted(os.listdir(root)):
         'detected': code == '1',
         'detected_by': {'check': './bin/vcheck run ' + prop, 'oracles': oracles, 'signatures': sigs[:8]},
     }
+    if other:
+        meta['detected_by_other_check'] = other
     json.dump(meta, open(os.path.join(d, 'meta.json'), 'w'), indent=1)
-    rows.append((name, title, ', '.join(files), 'yes' if code == '1' else ('NO (exit %s)' % code), ', '.join(o.split('.', 1)[1] if '.' in o else o for o in oracles)))
+    verdict = 'yes' if code == '1' else ('NO (exit %s)' % code)
+    if code != '1' and other:
+        verdict = 'no; by `vcheck run %s`' % other['check'].split()[-1]
+    rows.append((name, title, ', '.join(files), verdict, ', '.join(o.split('.', 1)[1] if '.' in o else o for o in oracles)))
 
 print('| seeded change | what it does | file | caught by `vcheck run <prop>` (quick) | oracle(s) |')
 print('|---|---|---|---|---|')
